@@ -53,6 +53,79 @@ def post(st):
             "holding": sorted(h["c"] for h in st["holding"]["#set"])}
 
 
+def local_limit_runs(tier, viols):
+    """Real mrp / mrjob processes with stages that declare thread and memory requests, under
+    --localcores / --localmem smaller than what the stages could use together.  Between the
+    job manager's ProcStart and ProcExit events a job holds what mrp recorded in its _jobinfo;
+    at every start the reservations of the jobs in that window must fit the limits, and the
+    pipestance must complete."""
+    import procdrv
+    import psrun
+    from mro import call, const, pipeline, program, ref, self_, stage
+    root = procdrv.build_root()
+    base = vlib.scratch("c12local")
+    configs = [  # (name, per-stage resources, cores, mem)
+        ("two_of_three", [{"threads": 2, "mem_gb": 1}] * 4, 3, 4),
+        ("mem_bound", [{"threads": 1, "mem_gb": 2}] * 4, 4, 3),
+        ("mixed", [{"threads": 1, "mem_gb": 1}, {"threads": 2, "mem_gb": 2}, {"threads": 3, "mem_gb": 1}, {"threads": 1, "mem_gb": 3}], 3, 3),
+        ("over_limit", [{"threads": 8, "mem_gb": 1}, {"threads": 2.5, "mem_gb": 9}, {"threads": 1, "mem_gb": 1}, {"threads": 0.5, "mem_gb": 1}], 2, 2),
+        ("fractional", [{"threads": 0.5, "mem_gb": 1}] * 4, 1, 4),
+    ]
+    if tier == "quick":
+        configs = configs[:4]
+    report = []
+    progs = []
+    for name, ress, cores, mem in configs:
+        stages = [stage("W%d" % i, "int x", "int y", {"y": const(i)}, res=r) for i, r in enumerate(ress)]
+        stages.append(stage("SINK", "int a, int b, int c, int d", "int s", {"s": const(1)}))
+        calls = [call("W%d" % i, binds={"x": self_("x")}) for i in range(len(ress))]
+        calls.append(call("SINK", binds={k: ref("W%d" % i, "y") for i, k in enumerate("abcd")}))
+        progs.append(program("lim_" + name, [], stages, [pipeline("TOP", "int x", "int s", calls, {"s": ref("SINK", "s")})], "TOP", {"x": 1}))
+    sem, _ = psrun.semantics(progs)
+    for (name, ress, cores, mem), q in zip(configs, progs):
+        for rep in range(1 if tier == "quick" else 4):
+            c = procdrv.Cycle(root, os.path.join(base, "%s_%d" % (name, rep)), q, sem[q["name"]], name, delay_ms=120,
+                              cores=cores, mem=mem)
+            rc_, dt = c.run(timeout=180)
+            evs = c.events()
+            running = {}
+            peak_t = peak_m = 0.0
+            nstart = 0
+            out = ""
+            try:
+                out = open(os.path.join(c.wd, "mrp.out"), errors="replace").read()
+            except OSError:
+                pass
+            rp = {"program.mro": c.mro, "limits.txt": "--localcores=%d --localmem=%d" % (cores, mem), "mrp.out": out[-3000:]}
+            for e in evs:
+                if e.get("ev") == "ProcStart":
+                    try:
+                        ji = json.load(open(os.path.join(e["md"], "_jobinfo")))
+                    except (OSError, ValueError):
+                        continue
+                    running[e["md"]] = (float(ji.get("threads") or 0), float(ji.get("memGB") or 0))
+                    nstart += 1
+                    t_ = sum(v[0] for v in running.values())
+                    m_ = sum(v[1] for v in running.values())
+                    peak_t, peak_m = max(peak_t, t_), max(peak_m, m_)
+                    if t_ > cores + 1e-9 or m_ > mem + 1e-9:
+                        viols.append({"key": "local:%s:over-limit" % name,
+                                      "what": "local mode, --localcores=%d --localmem=%d: when %s started, the jobs between process start and exit held %.2f threads and %.2f GB (%s)" % (
+                                          cores, mem, os.path.basename(os.path.dirname(e["md"])) + "/" + os.path.basename(e["md"]), t_, m_,
+                                          ", ".join("%s: %g threads %g GB" % (os.path.relpath(k, c.psdir), v[0], v[1]) for k, v in running.items())),
+                                      "replay": rp})
+                elif e.get("ev") == "ProcExit":
+                    running.pop(e.get("md"), None)
+            if rc_ != 0:
+                viols.append({"key": "local:%s:does-not-finish" % name,
+                              "what": "local mode, --localcores=%d --localmem=%d, stages asking for %s: mrp ended with %s instead of completing: %s" % (
+                                  cores, mem, json.dumps(ress), rc_, out[-300:].replace("\n", " ")), "replay": rp})
+            report.append({"config": name, "cores": cores, "mem": mem, "mrp_exit": rc_, "process_starts": nstart,
+                           "peak_threads": peak_t, "peak_mem_gb": peak_m, "seconds": round(dt, 1)})
+            c.cleanup()
+    return report
+
+
 def run(tier, replay=None):
     t0 = time.time()
     thorough = tier == "thorough"
@@ -116,6 +189,14 @@ def run(tier, replay=None):
         print("NOTE model-drift property=C12 GetSystemReqs: %s %s" % (json.dumps(d["row"]), d["detail"]))
     tlc_cmds.append("SysReqs.cfg: Clamped holds for every request of the grid and limits 1/2/4 cores, 1/2/4 GB; %d rows replayed through LocalJobManager.GetSystemReqs (%d differ from the model)" % (
         srep["rows"], len(srep["drift"] or [])))
+    # 2c. admission of local jobs (spec/LocalJM.tla), and real mrp processes under small limits
+    lj = vlib.run_tlc("LocalJM", "LocalJM.cfg", workers=8, timeout=900)
+    if not lj.ok:
+        raise vlib.Infra("LocalJM violates %s (specification problem)" % lj.violation)
+    states += lj.distinct
+    trans += lj.generated
+    tlc_cmds.append("LocalJM.cfg: %d distinct states, WithinLimits, RunningHold and the liveness property AllDone hold for every assignment of 4 requests" % lj.distinct)
+    local_report = local_limit_runs(tier, viols)
     # 3. cluster mode: --maxjobs with a real RemoteJobManager, the driver plays the
     #    cluster; plain runs and runs in which mrp exits and is restarted while jobs
     #    are queued or running on the cluster (MaxJobs.tla's Exit / Restart)
@@ -144,6 +225,16 @@ def run(tier, replay=None):
             cspecs.append(psrun.make_spec(q, sem[q["name"]], {"kind": "random", "seed": rng.randrange(1 << 30), "penv": rng.choice([0.3, 0.6, 0.9])},
                                           name="%s#r%d" % (q["name"], n), maxjobs=rng.choice([1, 2, 3]),
                                           faults={rng.choice(jobs): "errors"}, restart=True))
+    # a splitting stage with more chunks than slots: the failing job is a chunk in the middle, so
+    # that at the restart chunks on the cluster and chunks still waiting for a slot are mixed
+    for q in progs:
+        if q["name"] != "split10":
+            continue
+        mid = [j["key"] for j in psprops.expected_jobs(sem[q["name"]]) if j["kind"] == "main" and j["split"] and 3 <= j["chunk"] <= 8]
+        for n in range(12 if not thorough else 60):
+            cspecs.append(psrun.make_spec(q, sem[q["name"]], {"kind": "random", "seed": rng.randrange(1 << 30), "penv": rng.choice([0.2, 0.4, 0.6])},
+                                          name="%s#m%d" % (q["name"], n), maxjobs=rng.choice([2, 3]),
+                                          faults={rng.choice(mid): "errors"}, restart=True))
     cres = psrun.run_specs(cspecs, nproc=16)
     recs = []
     for sp, r_ in zip(cspecs, cres):
@@ -182,8 +273,10 @@ def run(tier, replay=None):
         "tlc_runs": tlc_cmds,
         "cluster_runs": len(cspecs), "cluster_runs_with_restart": sum(1 for x in cspecs if x.get("restart")),
         "cluster_submissions_observed": nsub, "peak_jobs_on_cluster": peak,
+        "local_limit_runs": local_report,
         "known_findings_hit": hit,
     }, [
+        "local mode under limits: real mrp and mrjob processes, stages with declared threads / mem_gb (also above the limits and fractional), --localcores / --localmem 1..4; the reservations are the ones mrp wrote to each job's _jobinfo, the window is the job manager's ProcStart .. ProcExit (inside the reservation); LocalJM.tla is the design-level statement of the same invariant plus termination",
         "cluster mode: a real RemoteJobManager (template file, submit command that prints a job id, --maxjobs 1..3); the driver plays the cluster: a job is on the cluster from the SendJob hook until its process ends; after a failure mrp exits, the cluster jobs live on, a fresh runtime re-attaches (Reset, RestartLocalJobs with the cluster job mode, as cmd/mrp does); PsTrace (TLC) judges every submission",
         "ResSem.tla transcribes resource_semaphore.go one action per critical section; MaxSize 4, 3 clients, amounts {0,1,2,3,5}, updates from {-1,0,2,4,6}",
         "replay drives the exported ResourceSemaphore API, one goroutine per blocked Acquire; verdicts only from the real object's Reserved/CurrentSize/QueueLength and which Acquire calls returned",
